@@ -12,15 +12,19 @@ from ptera.overlay import BaseOverlay, HandlerCollection, tooled
 from ptera.probe import probing
 from ptera.selector import select
 
-ENV = {"outer": LW.outer, "gen": LW.gen, "g": LW.g}
+ENV = {"outer": LW.outer, "gen": LW.gen, "g": LW.g, "top": LW.top}
 
 
 def run_case(c):
     text = "outer(stage) > gen > a" if c["form"] == "capture" else f"outer(stage={c['k']}) > gen > a"
+    if c.get("deep"):
+        text = "top > " + text
+    entry = LW.top if c.get("deep") else LW.outer
     events, gens, outcome = [], {}, "ok"
 
     def run(stage):
-        if stage == 1:
+        if stage == 0:
+            # the generators are made before the caller has assigned its variable for the first time
             for gi in sorted({g for _, g in c["stages"]}):
                 gens[gi] = LW.gen(9)
         for st, gi in c["stages"]:
@@ -28,13 +32,13 @@ def run_case(c):
                 next(gens[gi])
     try:
         if c["mode"] == "overlay":
-            h = Immediate(select(text, env=ENV), trigger=lambda d: events.append([d["stage"].value, d["a"].value]))
+            h = Immediate(select(text, env=ENV), trigger=lambda d: events.append([d["stage"].value if "stage" in d else 0, d["a"].value]))
             with BaseOverlay(h):
-                LW.outer(run)
+                entry(run)
         else:
             with probing(text, env=ENV) as p:
-                p.subscribe(lambda d: events.append([d["stage"], d["a"]]))
-                LW.outer(run)
+                p.subscribe(lambda d: events.append([d.get("stage", 0), d["a"]]))
+                entry(run)
     except Exception as ex:
         outcome = type(ex).__name__
     for g in gens.values():
@@ -49,7 +53,7 @@ def run_case(c):
 def main():
     cases = json.load(open(sys.argv[1]))
     if any(c["mode"] == "overlay" for c in cases):
-        for fn in (LW.outer, LW.gen, LW.g):
+        for fn in (LW.outer, LW.gen, LW.g, LW.top):
             tooled.inplace(fn)
     json.dump([run_case(c) for c in cases], open(sys.argv[2], "w"))
     print(len(cases))
